@@ -77,6 +77,24 @@ def make_case(index, rng, tier):
         msgs = httpgen.gen_stream(rng, 2, hostile=True)
         return {"mode": "hostile", "stream": b"".join(msgs).decode("latin-1"), "fmt": fmt, "family": rng.choice(conn.FAMILIES),
                 "n_msgs": len(msgs), "progs": [appgen.gen_program(rng, allow_fail=False)], "keepalive": 2}
+    if index % 5 == 3:
+        # completed requests on a kept-alive connection followed by a request the server rejects itself: each completed request
+        # is identified by a unique X-Id field that the format prints, so a record can be attributed to the request it describes
+        n = rng.randrange(1, 3)
+        reqs = []
+        for i in range(n):
+            r = gen_req(rng)
+            while r["bytes"].startswith("HEAD") or " HTTP/1.0" in r["bytes"].split("\r\n")[0]:
+                r = gen_req(rng)
+            r = dict(r, bytes=r["bytes"].replace("\r\nHost: h\r\n", "\r\nHost: h\r\nX-Id: id%d\r\n" % i, 1))
+            reqs.append(r)
+        tail = rng.choice(["GARBAGE\r\n\r\n", "GET / HTTP/9.9\r\nHost: h\r\n\r\n", "GET /t HTTP/1.1\r\nBad Header: x\r\n\r\n",
+                           "GET /t HTTP/1.1\r\nHost: h\r\nContent-Length: -1\r\n\r\n", "GET /t HTTP/1.1\r\nNoColon\r\n\r\n",
+                           "POST /t HTTP/1.1\r\nHost: h\r\nContent-Length: 1\r\nTransfer-Encoding: chunked\r\n\r\n0\r\n\r\n",
+                           "G\0T /t HTTP/1.1\r\n\r\n", "GET /" + "a" * 5000 + " HTTP/1.1\r\n\r\n"])
+        progs = [appgen.gen_program(rng, allow_fail=False) for _ in range(n)]
+        return {"mode": "mixed", "reqs": reqs, "tail": tail, "progs": progs, "fmt": "ID=%({x-id}i)s " + fmt, "family": rng.choice(conn.FAMILIES),
+                "keepalive": 2, "sendfile": rng.choice([None, None, False])}
     n = rng.randrange(1, 4)
     reqs = [gen_req(rng) for _ in range(n)]
     progs = [appgen.gen_program(rng, allow_fail=(index % 7 == 0)) for _ in range(n)]
@@ -99,8 +117,8 @@ def run(case, choices):
         data = case["stream"].encode("latin-1")
         nreq = case["n_msgs"]
     else:
-        data = "".join(r["bytes"] for r in case["reqs"]).encode("latin-1")
-        nreq = len(case["reqs"])
+        data = ("".join(r["bytes"] for r in case["reqs"]) + case.get("tail", "")).encode("latin-1")
+        nreq = len(case["reqs"]) + (1 if case.get("tail") else 0)
     sock = conn.SimSock(data, ())
     esc = conn.serve(worker, fam, sock)
     wire = bytes(sock.wire)
@@ -157,6 +175,22 @@ def run(case, choices):
                         res.violate("C19:B:%s" % path, "record %d says %s/%s body bytes, the client received %d (body path: %s); %s"
                                     % (i, B, b, sent, path, ctx()))
                         break
+    if case["mode"] == "mixed" and esc is None and not state.failed:
+        # attribution: a record that prints a completed request's X-Id describes that request; exactly one record may do so, and the
+        # record (if any) of the request the server rejected itself must not carry a completed request's identity
+        ids = {}
+        for rec in recs:
+            m = re.match(r"^ID=(\S+) ", rec)
+            if m:
+                ids.setdefault(m.group(1), []).append(rec)
+        for i in range(min(state.completed, len(case["reqs"]))):
+            got = ids.get("id%d" % i, [])
+            if len(got) != 1:
+                res.violate("C19:%s:records-per-completed-request:%d" % (fam, min(len(got), 2)),
+                            "request id%d completed its application call, yet %d access records describe it (one of them belongs to "
+                            "the later, rejected request): %r; %s" % (i, len(got), [g[:120] for g in got], ctx()))
+                break
+        res.probes["mixed_completed:%d" % state.completed] += 1
     res.nontrivial = bool(recs)
     res.from_log(log)
     res.shape = h64(data, case["progs"], fam, case["fmt"])
